@@ -165,7 +165,13 @@ CLAIMS = {
     note=NOTE_COMMON + " The closed loop feeds the measured previous-second QPS back into the calculator; with request batches coarser than q/c the rule never warms up (characterised, outside the quantifier: single-token requests)."),
  "C03": dict(
     category="proof",
-    text=("State-machine clauses for every strategy, rule and clock value: open_rejects_until_retry, open_lets_one_probe_through, half_open_rejects (exactly one probe per Half-Open phase), "
+    text=("breaker_refines_spec / fresh_breaker_refines_spec: REFINEMENT — for every rule with a positive statistic interval (any strategy, thresholds, min request amount, bucket count, retry "
+          "timeout) and every sequence, of any length, of requests, completions (fast/slow, ok/error, non-decreasing times) and probe rollbacks, the breaker model (ring of counters with stamps, "
+          "reset_metric, retry deadline) and the Spec machine (Sentinel/BreakerSpec.lean: state, deadline, the list of completions; window counts computed from that list) give the same answer to every "
+          "request and emit the same notifications; relation BRel = same rule/state/deadline + ring invariant w.r.t. the Spec's completion list, preserved by enter_/rollback_/complete_refines "
+          "(ring_inv_write, totals_eq_window, ring_inv_reset: reset_metric corresponds to dropping the completions of the current window; counts_forget_old: older ones can never be counted again). "
+          "The Spec machine of the theorem is the oracle the driver evaluates on the implementation's traces. "
+          "State-machine clauses for every strategy, rule and clock value: open_rejects_until_retry, open_lets_one_probe_through, half_open_rejects (exactly one probe per Half-Open phase), "
           "admitted_only_if, probe_outcome_decides (re-open with a new deadline / close + reset), closing_clears_stats, blocked_probe_reopens / rollback_noop, "
           "opens_only_when_threshold_met + thresholdMet_spelled (min request amount AND ratio/count threshold, evaluated on the window totals including this completion), "
           "open_completion_only_counts, tryPass_/rollback_/onComplete_announces (every state change announced exactly once with the correct previous state, nothing announced without a change), "
@@ -174,7 +180,7 @@ CLAIMS = {
           "through EntryBuilder with a recording StateChangeListener; Spec on traces: an independent Closed/Open/Half-Open machine over the exact windowed completion history must reproduce "
           "admissions, block type, every notification and the states read after every event."),
     design_ref="DESIGN.md §6 C03",
-    technique="Lean 4 proofs (transition lemmas, notification well-formedness, ring refinement for the counters) + differential correspondence + independent state-machine Spec oracle on implementation traces",
+    technique="Lean 4 refinement proof (breaker model vs Spec state machine over exact windowed counts, induction over operation sequences; transition lemmas, notification well-formedness, ring refinement for the counters) + differential correspondence + independent state-machine Spec oracle on implementation traces",
     note=NOTE_COMMON + " Sequential semantics (concurrency is C16). Ratios are the code's f64 division reproduced by the soft-float and compared exactly; snapshots carried by notifications are compared too."),
  "C06": dict(
     category="proof",
